@@ -38,6 +38,7 @@ fn main() {
         std::process::exit(replay_parse(&run, &targets, &v["case"], &|t, b, s| extra(t, b, &Got::Incomplete(None), &Ref::Unspec(""), s)));
     }
     let thorough = run.tier == Tier::Thorough;
+    vcommon::en::WRAP_LIES.store(true, std::sync::atomic::Ordering::Relaxed);
     let mut sink = Sink::new();
     let sfx = std_suffixes();
 
